@@ -84,6 +84,7 @@ pub mod verif_hooks {
     pub use super::links::{Links, TriggerUnlink};
     pub use super::remotes::verif_hooks::Uplinks;
     pub use super::remotes::{LaneRegistry, RemoteSender, RemoteTracker, UplinkResponse};
+    pub use super::verif_write_task::{write_task_for_verif, WriteTaskHandles};
     pub use super::write_fut::{SpecialAction, WriteAction, WriteTask};
 }
 use tokio::sync::{mpsc, oneshot};
@@ -2139,5 +2140,93 @@ fn not_found(lane_name: Option<&str>, response_tx: HttpResponseSender) {
     };
     if response_tx.send(not_found_response).is_err() {
         error!("HTTP connection was terminated before the response cound be sent.");
+    }
+}
+
+/// Access to the (private) write task on its own for the verification harness: the harness plays
+/// the agent's lanes, the read task's coordination messages and the two other voters.
+#[cfg(swimos_verif)]
+pub mod verif_write_task {
+    use super::*;
+    use futures::StreamExt;
+    use std::num::NonZeroUsize;
+    use swimos_utilities::byte_channel::byte_channel;
+
+    pub struct WriteTaskHandles {
+        pub read_voter: timeout_coord::Voter,
+        pub http_voter: timeout_coord::Voter,
+        pub vote_rx: timeout_coord::Receiver,
+        pub stop: Option<trigger::Sender>,
+        messages_tx: mpsc::Sender<WriteTaskMessage>,
+        read_rx: mpsc::Receiver<ReadTaskMessage>,
+        /// The agent's end of every initial lane (name, kind, writer of lane responses).
+        pub lanes: Vec<(Text, UplinkKind, ByteWriter)>,
+    }
+
+    impl WriteTaskHandles {
+        /// Attach a remote; `writer` is the channel on which the write task sends to it.
+        pub fn attach_remote(&self, id: Uuid, writer: ByteWriter) -> Option<promise::Receiver<DisconnectionReason>> {
+            let (completion, completion_rx) = promise::promise();
+            self.messages_tx
+                .try_send(WriteTaskMessage::Remote { id, writer, completion, on_attached: None })
+                .ok()
+                .map(|_| completion_rx)
+        }
+
+        pub fn link(&self, origin: Uuid, lane: &str) -> bool {
+            self.messages_tx.try_send(WriteTaskMessage::Coord(RwCoordinationMessage::Link { origin, lane: Text::new(lane) })).is_ok()
+        }
+
+        pub fn unlink(&self, origin: Uuid, lane: &str) -> bool {
+            self.messages_tx.try_send(WriteTaskMessage::Coord(RwCoordinationMessage::Unlink { origin, lane: Text::new(lane) })).is_ok()
+        }
+
+        /// Ask for a new lane to be registered (as the agent does while it is running).
+        pub fn register_lane(&self, name: &str, kind: WarpLaneKind, transient: bool) -> Option<oneshot::Receiver<Result<Io, AgentRuntimeError>>> {
+            let (tx, rx) = oneshot::channel();
+            let config = LaneConfig { transient, ..Default::default() };
+            self.messages_tx.try_send(WriteTaskMessage::Lane(LaneRuntimeSpec::new(Text::new(name), kind, config, tx))).ok().map(|_| rx)
+        }
+
+        /// Discard whatever the write task has sent to the (absent) read task.
+        pub fn drain_read_messages(&mut self) -> usize {
+            let mut n = 0;
+            while self.read_rx.try_recv().is_ok() {
+                n += 1;
+            }
+            n
+        }
+    }
+
+    /// The write task of an agent with the given initial lanes and no persistence.
+    pub fn write_task_for_verif(
+        identity: Uuid,
+        node_uri: &str,
+        runtime_config: AgentRuntimeConfig,
+        lanes: Vec<(&str, UplinkKind, bool)>,
+        lane_buffer: NonZeroUsize,
+    ) -> (impl Future<Output = Result<(), StoreError>> + Send + 'static, WriteTaskHandles) {
+        let (stop_tx, stop_rx) = trigger::trigger();
+        let mut agent_side = vec![];
+        let mut runtime_side = vec![];
+        for (name, kind, transient) in lanes {
+            let (tx, rx) = byte_channel(lane_buffer);
+            agent_side.push((Text::new(name), kind, tx));
+            runtime_side.push(LaneEndpoint::new(Text::new(name), kind, transient, rx, None));
+        }
+        let (vote1, vote2, vote3, vote_rx) = timeout_coord::agent_timeout_coordinator();
+        let (messages_tx, messages_rx) = mpsc::channel(64);
+        let (read_tx, read_rx) = mpsc::channel(64);
+        let task = write_task(
+            WriteTaskConfiguration::new(identity, Text::new(node_uri), runtime_config),
+            WriteTaskEndpoints::new(runtime_side, vec![]),
+            ReceiverStream::new(messages_rx).take_until(stop_rx),
+            read_tx,
+            vote1,
+            None,
+            StoreDisabled,
+        );
+        let handles = WriteTaskHandles { read_voter: vote2, http_voter: vote3, vote_rx, stop: Some(stop_tx), messages_tx, read_rx, lanes: agent_side };
+        (task, handles)
     }
 }
